@@ -16,8 +16,8 @@ TraceInit ==
   /\ tid \in 1..Len(Obs)
   /\ LET o == Obs[tid] IN
        /\ EI = Conv(o.EI) /\ OI = Conv(o.OI) /\ EO = Conv(o.EO) /\ OO = Conv(o.OO)
-       /\ hist = o.hist /\ batch = o.batch /\ st = o.st
-  /\ k = 1 /\ stage = "early" /\ queue = <<>> /\ log = <<>> /\ wire = <<>> /\ closed = FALSE /\ ignored = FALSE /\ nw = 0
+       /\ hist = o.hist /\ batch = o.batch /\ st = o.st /\ forced = o.forced
+  /\ k = 1 /\ stage = "early" /\ queue = <<>> /\ log = <<>> /\ wire = <<>> /\ closed = FALSE /\ ignored = FALSE /\ nw = 0 /\ fdone = FALSE
 TraceSpec == TraceInit /\ [][Next /\ UNCHANGED tid]_<<vars, tid>>
 LogMatches == Done => (log = Obs[tid].log /\ wire = Obs[tid].wire)
 =============================================================================
